@@ -175,6 +175,45 @@ func Mk(v oracle.Val, prec uint, mode int) *decimal.Decimal {
 	return d
 }
 
+// MkR is Mk, except that a zero or an infinity is, six times out of ten, built in a variable that held a finite value
+// before (leftover mantissa words and exponent, anywhere in the exponent range): whatever a special value held
+// before must never show.
+func MkR(r *RNG, v oracle.Val, prec uint, mode int) *decimal.Decimal {
+	if v.Form == oracle.Finite || r == nil || !r.Chance(60) {
+		return Mk(v, prec, mode)
+	}
+	if prec == 0 {
+		prec = 1
+	}
+	w := r.Finite(r.Range(1, 60), r.LeadExp())
+	if r.Chance(30) {
+		w.Exp = int64(r.Range(-1, 1)) - oracle.Digits(w.Coef) // leading exponent -1, 0 or 1: the leftover exponent field is 0 or next to it
+	}
+	d := Mk(w, prec, mode)
+	if v.Form == oracle.Zero {
+		switch r.Intn(3) {
+		case 0:
+			d.SetUint64(0)
+		case 1:
+			d.Sub(d, d)
+			d.Abs(d)
+		default:
+			d.Mul(d, new(decimal.Decimal))
+			d.Abs(d)
+		}
+		if v.Neg {
+			d.Neg(d)
+		}
+	} else {
+		d.SetInf(v.Neg)
+	}
+	d.SetPrec(prec).SetMode(decimal.RoundingMode(mode))
+	if got := Read(d); !oracle.Equal(got, v) || d.Prec() != prec {
+		panic(MkError{fmt.Sprintf("built %s prec=%d, wanted %s prec=%d (stale special)", got, d.Prec(), v, prec)})
+	}
+	return d
+}
+
 type MkError struct{ Msg string }
 
 func (e MkError) Error() string { return "operand construction failed: " + e.Msg }
@@ -475,6 +514,20 @@ func Canonical(d *decimal.Decimal) string {
 		}
 		if got := d.Text('g', -1); got != want {
 			return fmt.Sprintf("zero/infinity prints as %q, want %q (leftover state shows)", got, want)
+		}
+		if d.IsZero() {
+			for _, f := range []struct {
+				ft   byte
+				want string
+			}{{'e', "0e+00"}, {'p', "0"}, {'b', "0"}, {'f', "0"}} {
+				w := f.want
+				if d.Signbit() {
+					w = "-" + w
+				}
+				if got := d.Text(f.ft, -1); got != w {
+					return fmt.Sprintf("zero prints as %q in format %c, want %q (leftover state shows)", got, f.ft, w)
+				}
+			}
 		}
 		return ""
 	}
